@@ -186,6 +186,12 @@ def single_defs(func: ast.AST) -> Dict[str, ast.AST]:
             for t in n.targets:
                 if isinstance(t, ast.Name):
                     bind(t.id, n.value if len(n.targets) == 1 else None)
+                elif isinstance(t, ast.Tuple) and isinstance(n.value, ast.Tuple) and len(t.elts) == len(n.value.elts) and len(n.targets) == 1 and all(isinstance(x, ast.Name) for x in t.elts):
+                    # `a, b = (x, y)`: element-wise definitions (unless a right side reads a left name)
+                    lhs = {x.id for x in t.elts}
+                    reads = {x.id for v in n.value.elts for x in ast.walk(v) if isinstance(x, ast.Name)}
+                    for x, v in zip(t.elts, n.value.elts):
+                        bind(x.id, v if not (lhs & reads) else None)
                 else:
                     for x in ast.walk(t):
                         if isinstance(x, ast.Name) and isinstance(x.ctx, ast.Store):
